@@ -467,11 +467,11 @@ def run(replay=None):
         # (all 3-unit lists over 8 descriptors x all texts of 4 lines squared exhausts memory: 2.6 M behaviours)
         ul = unit_lists(2, ["X", "Y", "M", "OL", "T", "T2", "TB", "BAD", "BADP", "XK"]) + unit_lists(3, ["X", "M", "T", "OL"]) + unit_lists(2, ["X", "T2", "INT"])
         ul = sorted(set(ul))
-        tx = sorted(set(dip_texts(2, ["len", "wid", "c", "use", "bad", "conv", "convbad", "cond", "nest"]) + dip_texts(3, ["len", "c", "use", "bad", "convbad"])
-                        + dip_texts(4, ["len", "c", "use"]) + dip_texts(2, ["len", "wid", "useu", "nestu", "condu", "boolu"])
+        tx = sorted(set(dip_texts(2, ["len", "wid", "c", "use", "bad", "conv", "convbad", "cond", "nest"]) + dip_texts(3, ["len", "c", "use", "bad"])
+                        + [("len", "wid", "c", "use"), ("len", "c", "wid", "bad"), ("len", "len", "c", "use"), ("len", "use", "use", "bad")] + dip_texts(2, ["len", "wid", "useu", "nestu", "condu", "boolu"])
                         + [("len",) + x for x in dip_texts(2, ["useu", "nestu", "condu", "boolu", "bad", "c"])]))
-        ul3 = unit_lists(1, ["X", "Y", "M", "OL", "T", "T2", "TB", "BAD", "INT"]) + unit_lists(2, ["X", "Y", "M", "T"]) + [("X", "OL"), ("T2", "M"), ("XK", "Y"), ("Y", "BAD"), ("X", "INT")]
-        tx3 = dip_texts(1, ["len", "c", "use", "convbad", "nest"]) + dip_texts(2, ["len", "c", "use"]) + [("len", "convbad"), ("len", "nest"), ("len", "c", "use"), ("c", "len", "bad"), ("len", "nestu"), ("len", "condu"), ("len", "boolu"), ("nestu",)]
+        ul3 = unit_lists(1, ["X", "Y", "M", "OL", "T", "T2", "TB", "BAD", "INT"]) + unit_lists(2, ["X", "M", "T"]) + [("X", "OL"), ("T2", "M"), ("XK", "Y"), ("Y", "BAD"), ("X", "INT")]
+        tx3 = dip_texts(1, ["len", "c", "use", "convbad", "nest"]) + [("len", "use"), ("len", "c"), ("c", "len"), ("len", "len")] + [("len", "convbad"), ("len", "nest"), ("len", "c", "use"), ("c", "len", "bad"), ("len", "nestu"), ("len", "condu"), ("len", "boolu"), ("nestu",)]
     # A: every unit list / text, behaviours of 2 calls; B: a core subset, behaviours of 3 calls (deeper nesting)
     open(os.path.join(wd, "UnitEnvMC.tla"), "w").write(mc_module(ul, tx, True, 2))
     r = C.run_tlc(wd, "UnitEnvMC", MC_CFG.format(emit="INVARIANT EmitInv"), coverage=False)
